@@ -44,7 +44,7 @@ def gen_cases(engine, rng, tier):
     n = 250 if tier == 'quick' else 5000
     out = []
     for i in range(n):
-        kind = rng.choice(['size', 'size', 'sizeparam', 'hops', 'hops', 'bad', 'bad', 'rcpt'] if i % 40 else ['rcpt'])
+        kind = rng.choice(['size', 'size', 'sizeparam', 'hops', 'hops', 'strict', 'strict', 'bad', 'bad', 'rcpt'] if i % 40 else ['rcpt'])
         hello = rng.choice([b'HELO c.example.net\r\n', b'EHLO c.example.net\r\n'])
         if kind == 'size':
             lim = rng.choice([150, 400])
@@ -66,6 +66,28 @@ def gen_cases(engine, rng, tier):
             else: body = (rl + b'\r\n') * (k - 50) + b'X: y\r\n' + (rl + b'\r\n') * 50 + b'\r\n' + (rl + b'\r\n') * 60 + b'.\r\n'
             chunks = [hello, session_gen.mail(rng, 'ok'), session_gen.rcpt(rng, 'ok'), b'DATA\r\n', body, b'NOOP\r\n']
             cfg = 'relay=none;ip=v4;databytes=0;qq=ok,ok'
+        elif kind == 'strict':
+            # RfC 2822 header check on (check_strict_rfc2822): Received: counting must not depend on where Date:/From:/Message-Id: stand
+            k = rng.choice([3, 99, 100, 101, 102])
+            rl = rng.choice([b'Received: from a by b', b'received: x'])
+            known = [b'Date: Thu, 1 Jan 1970 00:00:00 +0000', b'From: <a@example.net>', b'Message-Id: <1@example.net>']
+            rng.shuffle(known)
+            pos = rng.choice(['first', 'last', 'middle', 'missing-date', 'missing-from', 'dup', '8bit-hdr', '8bit-body', 'deliv'])
+            recv = [rl] * k
+            if pos == 'first': hdr = known + recv
+            elif pos == 'last': hdr = recv + known
+            elif pos == 'middle': hdr = recv[:k // 2] + known[:1] + recv[k // 2:] + known[1:]
+            elif pos == 'missing-date': hdr = [x for x in known if not x.startswith(b'Date')] + recv[:3]
+            elif pos == 'missing-from': hdr = [x for x in known if not x.startswith(b'From')] + recv[:3]
+            elif pos == 'dup': hdr = known + [rng.choice(known)] + recv[:3]
+            elif pos == '8bit-hdr': hdr = known + [b'Subject: \xc3\xa4'] + recv[:3]
+            elif pos == 'deliv': hdr = known + [rng.choice([b'Delivered-To: alice@example.org', b'Delivered-To: bob@example.org', b'delivered-to: alice@example.org', b'Delivered-To: x@example.net'])] + recv[:3]
+            else: hdr = known + recv[:3]
+            bodyl = [b'text', b'\xc3\xa4 8bit'] if pos == '8bit-body' else [b'text']
+            body = b''.join(x + b'\r\n' for x in hdr) + b'\r\n' + b''.join(x + b'\r\n' for x in bodyl) + b'.\r\n'
+            mailk = rng.choice([b'MAIL FROM:<a@example.net>\r\n', b'MAIL FROM:<a@example.net> BODY=8BITMIME\r\n', b'MAIL FROM:<a@example.net> BODY=7BIT\r\n'])
+            chunks = [b'EHLO c.example.net\r\n', mailk, b'RCPT TO:<alice@example.org>\r\n', b'DATA\r\n', body, b'NOOP\r\n']
+            cfg = 'relay=none;ip=v4;databytes=0;qq=ok,ok;check2822=%s' % rng.choice(['1', '1', '1', '0'])
         elif kind == 'bad':
             chunks = [hello] if rng.random() < 0.7 else []
             for _ in range(rng.choice([1, 2, 3])):
